@@ -23,10 +23,11 @@ def lemmas(idx):
     order = []; seen = {}; cover = []; notes = {'untranslated': []}; n = 0
     def add(cfg, f, vs, args, rhs_tree_t, lanes, sname, hyps=(), tactic='alg_ring', scalar_k=None):
         nonlocal n
+        args = alg.kxargs(args); lanes = alg.kxl(lanes)
         if f['fid'] is None or f.get('status') == 'missing-callee':
             notes['untranslated'].append('%s %s' % (cfg, f['key'])); return
         structs = idx.structs(cfg)
-        run = 'run OA tbl 400 %d%%positive [%s]' % (f['fid'], '; '.join(args))
+        run = 'rnorm (run OA tbl 400 %d%%positive [%s])' % (f['fid'], '; '.join(args))
         if scalar_k: rhs = 'Ok (%s %s)' % (VF(scalar_k), lanes[0]); sh = 'SL'
         else:
             rt = sym(structs, rhs_tree_t, 'r', []); rhs = 'Ok (%s)' % tree_fill(rt, iter(lanes)); sh = ty_shape(structs, rhs_tree_t)
@@ -41,6 +42,7 @@ def lemmas(idx):
             st = f['self']; tn = tname(st) if st is not None else None
             if tn not in MATS or f['generic'] or f['by_ref']: continue
             C, k = MATS[tn]; name = f['name']; tr = f['trait'][0] if f['trait'] else None
+            if tr and tr.endswith('Assign'): tr = tr[:-6]; name = name[:-7]      # m *= n etc.: the model function returns the updated self
             def Mx(pre, vs, t=st):
                 tr_ = sym(structs, t, pre, vs); L = [l[2] for l in tree_leaves(tr_)]; return tr_, [[L[c * C + r] for c in range(C)] for r in range(C)]   # M[r][c]
             try:
@@ -62,10 +64,10 @@ def lemmas(idx):
                     if len(v) != C: continue
                     lanes = [alg.S([alg.P(M[r][c], v[c]) for c in range(C)]) for r in range(C)]
                     add(cfg, f, vs, [tree_coq(t), tree_coq(p)], f['ret'], lanes, 'matrix * vector')
-                elif name in ('add_mat2', 'add_mat3', 'add_mat4', 'sub_mat2', 'sub_mat3', 'sub_mat4') and len(f['params']) == 1:
+                elif (name in ('add_mat2', 'add_mat3', 'add_mat4', 'sub_mat2', 'sub_mat3', 'sub_mat4') or (tr in ('Add', 'Sub') and name in ('add', 'sub'))) and len(f['params']) == 1 and tname(f['params'][0][1]) == tn:
                     vs = []; ta, A = Mx('a', vs); tb, B = Mx('b', vs); o = '+' if name.startswith('add') else '-'
                     add(cfg, f, vs, [tree_coq(ta), tree_coq(tb)], st, ['(%s %s %s)%%K' % (A[r][c], o, B[r][c]) for c in range(C) for r in range(C)], name)
-                elif name == 'mul_scalar' and len(f['params']) == 1:
+                elif (name == 'mul_scalar' or (tr == 'Mul' and name == 'mul')) and len(f['params']) == 1 and f['params'][0][1] == k:
                     vs = []; ta, A = Mx('a', vs); s = sym(structs, f['params'][0][1], 's', vs)
                     add(cfg, f, vs, [tree_coq(ta), tree_coq(s)], st, ['(%s * %s)%%K' % (A[r][c], s[2]) for c in range(C) for r in range(C)], name)
                 elif tr == 'Neg' and name == 'neg':
